@@ -191,3 +191,44 @@ Proof.
     destruct (existsb (N.eqb (l_start l)) rs); [rewrite gc_writes_read by (auto; lia); reflexivity|reflexivity].
   - rewrite gc_writes_read by (auto; lia). reflexivity.
 Qed.
+
+(* ------------------------------------------------------------------ isolation level RC = the same read with all locks removed *)
+Lemma get_ks_unlocked st k : get_ks (unlocked st) k = mkKs None (ks_writes (get_ks st k)).
+Proof.
+  unfold unlocked. induction st as [|[k0 v0] r IH]; cbn [map get_ks fst snd]; [reflexivity|].
+  destruct (k0 =? k); [reflexivity|]. destruct (k <? k0); [reflexivity|exact IH].
+Qed.
+Lemma scan_gen_map entry (g : key * kstate -> key * kstate) s e : (forall kv, fst (g kv) = fst kv) ->
+  forall st limit, scan_gen entry (map g st) s e limit = scan_gen (fun kv => entry (g kv)) st s e limit.
+Proof.
+  intros Hg. induction st as [|kv r IH]; intros limit; destruct limit as [|n]; cbn [map scan_gen]; try reflexivity.
+  rewrite Hg. destruct (in_range s e (fst kv)); rewrite IH; reflexivity.
+Qed.
+Lemma scan_gen_ext (f g : key * kstate -> list pair) s e : (forall kv, f kv = g kv) ->
+  forall st limit, scan_gen f st s e limit = scan_gen g st s e limit.
+Proof.
+  intros H. induction st as [|kv r IH]; intros limit; destruct limit as [|n]; cbn [scan_gen]; try reflexivity.
+  rewrite H. destruct (in_range s e (fst kv)); rewrite IH; reflexivity.
+Qed.
+Lemma rc_entry_unlocked t kv : scan_entry t [] (fst kv, mkKs None (ks_writes (snd kv))) = rc_entry t kv.
+Proof.
+  unfold scan_entry, rc_entry, get_ks_value. cbn [fst snd ks_lock ks_writes].
+  destruct (read_writes (ks_writes (snd kv)) t) as [[v c]|]; reflexivity.
+Qed.
+
+Lemma rc_reads st q :
+  snd (step st (Rc q)) =
+  match q with
+  | QGet k t => get (unlocked st) k t []
+  | QBatchGet ks t => snd (step (unlocked st) (BatchGet ks t []))
+  | QScan s e limit t => snd (step (unlocked st) (Scan s e limit t []))
+  | QReverseScan s e limit t => snd (step (unlocked st) (ReverseScan s e limit t []))
+  end.
+Proof.
+  destruct q; cbn [step snd].
+  - rewrite get_unfold, get_ks_unlocked. reflexivity.
+  - unfold batch_get. apply (f_equal RPairs). apply flat_map_ext. intros k0. rewrite get_ks_unlocked. unfold get_ks_value. cbn [ks_lock ks_writes].
+    destruct (read_writes (ks_writes (get_ks st k0)) t) as [[v c]|]; reflexivity.
+  - unfold scan_fwd, unlocked. rewrite scan_gen_map by reflexivity. apply (f_equal RPairs). apply scan_gen_ext. intros kv. apply eq_sym, rc_entry_unlocked.
+  - unfold scan_rev, unlocked. rewrite <- map_rev. rewrite scan_gen_map by reflexivity. apply (f_equal RPairs). apply scan_gen_ext. intros kv. apply eq_sym, rc_entry_unlocked.
+Qed.
